@@ -233,6 +233,12 @@ pub fn render_ops(ops: &[Op]) -> String {
                 }
                 Err(_) => out.push_str(&format!("{}CallFunction {}.{} <{} bytes>\n", pad, blueprint, function, args.len())),
             },
+            Op::Import(v) => {
+                let mut nodes = Vec::new();
+                collect_nodes(v, &mut nodes);
+                let names: Vec<String> = nodes.iter().map(|n| format!("{}…{}", hex::encode(&n.0[..1]), hex::encode(&n.0[27..]))).collect();
+                out.push_str(&format!("{}Import [{}]\n", pad, names.join(", ")));
+            }
             other => {
                 let mut t = format!("{:?}", other);
                 if t.len() > 260 {
